@@ -368,3 +368,11 @@ def run(res, ctx):
         "rounding half of C01 (|dec - exact| <= 1e-9 for any length) is measured on every generated history, not proved: see DESIGN.md C01",
         "CSV tokenisation (csv crate) and date parsing (time crate) are exercised, not modelled",
     ]
+
+
+def replay(res, ctx, path):
+    import renderoracle
+    def judge(r):
+        stat, probs = renderoracle.check_run(r)
+        return [m for _, m in probs] if stat == "ok" else []
+    return corecheck.replay(res, ctx, path, judge=judge)
